@@ -30,7 +30,8 @@ fn num(e: &xml::Element, a: &str) -> Result<f64, String> {
 /// extracts frame and image geometry from a rendered document
 pub fn geometry(doc: &str) -> Result<Geometry, String> {
     let root = xml::parse(doc).map_err(|e| format!("not well-formed: {}", e))?;
-    let rects: Vec<&xml::Element> = root.children.iter().enumerate().filter(|(i, c)| *i > 0 && c.name == "rect").map(|(_, c)| c).collect();
+    // every <rect> after the first one (the background)
+    let rects: Vec<&xml::Element> = root.children.iter().filter(|c| c.name == "rect").skip(1).collect();
     let images: Vec<&xml::Element> = root.children.iter().filter(|c| c.name == "image").collect();
     if rects.len() != 1 {
         return Err(format!("{} frame <rect> elements after the background, expected 1", rects.len()));
